@@ -2,6 +2,7 @@
 import concurrent.futures
 import json
 import os
+import threading
 
 import configs
 import vlib
@@ -1114,6 +1115,42 @@ def gate_stress(run, prop, n, check_n=False):
         marks = [int(x) for x in r.prints.get("MARK", [])]
         return r, (max(marks) if marks else 0)
 
+    # TLC handles behaviours of fewer than 65 536 states (about three per logged line): validate in chunks of whole histories
+    chunks, cur = [], []
+    for x in rows:
+        if x["t"] == "reset" and len(cur) > 12000:
+            chunks.append(cur)
+            cur = []
+        cur.append(x)
+    chunks.append(cur)
+    if len(chunks) > 1:
+        results = [None] * len(chunks)
+
+        def work(i):
+            results[i] = validate(chunks[i], os.path.join(out, "gate_chunk%d.ndjson" % i), check_n, "val:GateTrace[chunk %d, %d lines]" % (i, len(chunks[i])))
+        threads = []
+        for i in range(len(chunks)):
+            t = threading.Thread(target=work, args=(i,))
+            t.start()
+            threads.append(t)
+            if len(threads) >= 6:
+                threads.pop(0).join()
+        for t in threads:
+            t.join()
+        remaining = []
+        for i, (r, mark) in enumerate(results):
+            if r.ok and mark == len(chunks[i]):
+                run.events += mark
+                run.traces += len([x for x in chunks[i] if x["t"] == "reset"])
+            else:
+                remaining += chunks[i]   # isolated below, history by history
+        if not remaining:
+            return
+        if len(remaining) > 20000:
+            remaining = remaining[:20000]
+            while remaining and remaining[-1]["t"] != "reset":
+                remaining.pop()
+            remaining.pop()
     for attempt in range(6):
         r, mark = validate(remaining, os.path.join(out, "gate_%d.ndjson" % attempt), check_n, "val:GateTrace[%d lines]" % len(remaining))
         run.events += mark
